@@ -657,7 +657,9 @@ func e18RestCase(pkg, ns string) Case {
 			}
 			if len(reqs) < 3 {
 				r.V("C20", "requests-missing", "%s ns=%q: no re-watch within 6 s after the server closed the first stream; saw %v", pkg, ns, reqs)
-			} else if reqs[2] != wantRewatch {
+			} else if reqs[2] != wantRewatch && reqs[2] != wantWatch {
+				// (resuming at 7 is legitimate too: the session may end before the watcher
+				// has taken the event out of the session's buffer; it is then replayed)
 				r.V("C20", "rewatch-request-wrong", "%s ns=%q: after one event at version 9 and a stream close the re-watch request is %q, expected %q", pkg, ns, reqs[2], wantRewatch)
 			}
 		}
